@@ -211,7 +211,13 @@ pub fn eval_case(ops: &[Op], drv: Option<&mut Drv>, pools: &[Pool], rng: &mut Rn
         rng.shuffle(&mut cands);
         for t in cands.into_iter().take(6) {
             let mode = if rng.chance(75) { "par" } else { "seq" };
-            let how = if built.infos[&t].is_batch || rng.chance(70) { 1 } else { 2 };
+            let how = if built.infos[&t].is_batch || rng.chance(50) {
+                1
+            } else if rng.chance(50) {
+                2
+            } else {
+                3
+            };
             plan_rounds.push((mode.to_string(), Some(t), how));
             plan_rounds.push((mode.to_string(), None, 0));
         }
@@ -338,7 +344,7 @@ pub fn eval_case(ops: &[Op], drv: Option<&mut Drv>, pools: &[Pool], rng: &mut Rn
             (Err(p), false) => {
                 let m = panic_message(p);
                 let rd = shared.round.load(SeqCst);
-                let ok = panicking.iter().any(|t| m == format!("harness panic (run) {} #{}", t, rd) || m == format!("harness panic (fetch) {} #{}", t, rd));
+                let ok = panicking.iter().any(|t| m == format!("harness panic (run) {} #{}", t, rd) || m == format!("harness panic (fetch) {} #{}", t, rd) || m == format!("harness panic (typed) {} #{}", t, rd));
                 if !ok {
                     out.impl_v.push(("C14".into(), format!("the panic that reached the caller carries {:?}, not the payload of a panicking system ({:?})", m, panicking)));
                 }
